@@ -14,8 +14,8 @@ Catalogue == { << <<4,0,0>>, <<0,4,0>>, <<0,0,4>> >>, << <<3,0,0>>, <<0,5,0>>, <
                << <<4,0,0>>, <<7,4,0>>, <<9,-6,4>> >>, << <<2,0,0>>, <<1,12,0>>, <<-1,5,3>> >>,
                \* strongly skewed (115/110/115 degrees, edges 5:4:3): a sum of two cell vectors is shorter than one of them
                << <<20,0,0>>, <<-7,14,0>>, <<-4,-8,8>> >>, << <<10,0,0>>, <<-4,7,0>>, <<-2,-4,4>> >>,
-               \* almost rectangular cells (angles within 0.2 degrees of 90): skewed all the same
-               << <<300,0,0>>, <<0,300,0>>, <<1,0,300>> >>, << <<300,0,0>>, <<1,300,0>>, <<0,-1,300>> >> }
+               \* almost rectangular cells (angles within 0.15 degrees of 90): skewed all the same
+               << <<400,0,0>>, <<0,400,0>>, <<1,0,400>> >>, << <<400,0,0>>, <<1,400,0>>, <<0,-1,400>> >> }
 Cells == IF UseCatalogue THEN Catalogue
          ELSE { <<<<ax,0,0>>, <<bx,by,0>>, <<cx,cy,cz>>>> : ax \in 2..MaxL, by \in 2..MaxL, cz \in 2..MaxL, bx \in -MaxS..MaxS, cx \in -MaxS..MaxS, cy \in -MaxS..MaxS }
 VARIABLES cell, r, ph
